@@ -419,3 +419,56 @@ theorem fermatK_tie (n : Int) (hn : 0 ≤ n) : contfracFermatStrategyK n = some 
   simp
 
 end AC.HeurTie
+
+namespace AC.HeurTie
+open AC.Gen.Program AC.GoPrim AC.BigPrim P
+
+theorem total_loop_tie (n : Int) : ∀ (m : Nat) (k : Int) (ks : List Int), n - k ≤ (m : Int) →
+    contfracTotalStrategyK_loop1 m n ks k 1 =
+      some (ks ++ (List.range (n - k).toNat).map (fun (i : Nat) => k + (i : Int))) := by
+  intro m
+  induction m with
+  | zero =>
+    intro k ks h
+    have hk : ¬ k < n := by omega
+    have h0 : (n - k).toNat = 0 := by omega
+    simp [contfracTotalStrategyK_loop1, bCmp_lt, hk, h0]
+  | succ m ih =>
+    intro k ks h
+    simp only [contfracTotalStrategyK_loop1, bCmp_lt]
+    by_cases hk : k < n
+    · have := ih (k + 1) (ks ++ [k]) (by omega)
+      obtain ⟨d, hd⟩ : ∃ d : Nat, (n - k).toNat = d + 1 := ⟨(n - k).toNat - 1, by omega⟩
+      have hd' : (n - (k + 1)).toNat = d := by omega
+      rw [hd'] at this
+      simp only [hk, decide_true, if_true, AC.Gen.Bigint.clone, bSet, bAdd, hd, List.range_succ_eq_map,
+        List.map_cons, List.map_map]
+      rw [this]
+      have hmap : (List.range d).map ((fun (i : Nat) => k + (i : Int)) ∘ Nat.succ) =
+          (List.range d).map (fun (i : Nat) => k + 1 + (i : Int)) := by
+        apply List.map_congr_left
+        intro i _
+        simp only [Function.comp]
+        push_cast; omega
+      simp [hmap]
+    · have h0 : (n - k).toNat = 0 := by omega
+      simp [hk, h0]
+
+theorem totalK_tie (n : Int) : contfracTotalStrategyK n = some (Strategy.K .total n) := by
+  unfold contfracTotalStrategyK Strategy.K
+  have hone : AC.Gen.Bigint.one = 1 := rfl
+  simp only [bNewInt, hone, bind, Option.bind]
+  rw [total_loop_tie n (n - 2).toNat 2 [] (by omega)]
+  have : (n - 2).toNat = n.toNat - 2 := by omega
+  rw [this]
+  simp only [List.nil_append]
+  congr 1
+  apply List.map_congr_left
+  intro i _
+  simp; omega
+
+theorem sqrtK_tie (n : Int) (hn : 0 ≤ n) : contfracSqrtStrategyK n = some (Strategy.K .sqrt n) := by
+  have : ¬ n < 0 := by omega
+  simp [contfracSqrtStrategyK, Strategy.K, bSqrt, this]
+
+end AC.HeurTie
